@@ -39,6 +39,29 @@ def generate(rng, tier, shard, nshards):
         if i % 9 == 4:
             w = 0.0 if i % 2 else w * 1e-6      # a body that does not rotate (m exactly 0, any flattening), or hardly
         yield Case("ellipsoid", reg, a=a, f=f, GM=GM, w=w, lats=[float(x) for x in rng.uniform(-90, 90, 6)], hs=[float(x) for x in np.sort(rng.uniform(0, 0.005 * a, 5))])
+    # neighbours of the parameter sets the package ships (WGS84, GRS80, the bodies of the constants table): each defining parameter off by parts per
+    # billion to parts per ten thousand - where a comparison with a tabled value ("is this the Earth?") would switch branches
+    import ahrs
+    C = ahrs.common.constants
+    tabled = [(6378137.0, 1 / 298.257223563, 3.986004418e14, 7.292115e-5), (6378137.0, 1 / 298.257222101, 3.986005e14, 7.292115e-5),
+              (6378137.0, 1 / 298.257223563, 3.9860050e14, 7.292115e-5)]
+    for b in BODIES:
+        try:
+            a_ = float(getattr(C, b + "_EQUATOR_RADIUS"))
+            tabled.append((a_, 1.0 - float(getattr(C, b + "_POLAR_RADIUS")) / a_, float(getattr(C, b + "_GM")), float(getattr(C, b + "_ROTATION"))))
+        except AttributeError:
+            pass
+    for i in range(gens.budget(40, tier, nshards)):
+        a, f, GM, w = tabled[i % len(tabled)] if i % 2 == 0 else tabled[i % 3]
+        pert = [1.0 + float(rng.choice([-1, 1])) * gens.logu(rng, 1e-10, 1e-4) * float(rng.random() < 0.6) for _ in range(4)]
+        if i < len(tabled):
+            pert = [1.0] * 4          # the tabled set itself, handed over as numbers
+        f2 = f * pert[1]
+        reg = "f:zero" if f2 == 0 else ("f:1e-6..1e-4" if f2 < 1e-4 else ("f:1e-4..1e-2" if f2 < 1e-2 else "f:1e-2..0.2"))
+        if 0 < f2 < 1e-6 or f2 > 0.2 or w * w * a ** 3 * (1 - f2) / GM > 0.05:
+            continue
+        yield Case("ellipsoid", reg, a=a * pert[0], f=f2, GM=GM * pert[2], w=w * pert[3], lats=[float(x) for x in rng.uniform(-90, 90, 3)],
+                   hs=[float(x) for x in np.sort(rng.uniform(0, 0.005 * a, 3))], near_tabled=True)
     if shard == 0:
         for b in BODIES:
             yield Case("body", "bodies", body=b, lats=[float(x) for x in rng.uniform(-90, 90, 4)], hs=[0.001, 0.002, 0.004])
